@@ -45,13 +45,13 @@ func optMaskAtomSub(u *U, base *E, bits int64) map[string]*E {
 // OptionBadfilter) and the rewrite filter (reads the DNSRewrite field).
 func filterRoles(c *Ctx, fn *ssa.Function, kBad int64) (bad, rew *ssa.Function) {
 	seen := map[*ssa.Function]bool{}
-	eachInstr(fn, func(_ *ssa.BasicBlock, in ssa.Instruction) {
+	eachInstrG(c.P, fn, func(_ *ssa.BasicBlock, in ssa.Instruction) {
 		ci, ok := in.(ssa.CallInstruction)
 		if !ok {
 			return
 		}
 		cal := ci.Common().StaticCallee()
-		if cal == nil || seen[cal] || !c.P.IsLibFunc(cal) {
+		if cal == nil || seen[cal] || !c.P.IsLibFunc(cal) || c.P.IsNewHelper(cal) {
 			return
 		}
 		seen[cal] = true
@@ -63,7 +63,7 @@ func filterRoles(c *Ctx, fn *ssa.Function, kBad int64) (bad, rew *ssa.Function) 
 			return
 		}
 		usesBad, readsRew := false, false
-		eachInstr(cal, func(_ *ssa.BasicBlock, in2 ssa.Instruction) {
+		eachInstrG(c.P, cal, func(_ *ssa.BasicBlock, in2 ssa.Instruction) {
 			if c2, ok := in2.(ssa.CallInstruction); ok {
 				for _, a := range c2.Common().Args {
 					if isConstInt(a, kBad) {
